@@ -190,3 +190,24 @@ def distribution(elines, dlines):
         for m in d.mut.split("+"):
             dist["D:mutation:" + m] = dist.get("D:mutation:" + m, 0) + 1
     return dict(sorted(dist.items()))
+
+
+class PLine:
+    """Independent peer exchange (amqp091-go <-> /repo's amqp package): one method or content header that crossed the pipe."""
+    def __init__(self, line):
+        f = line.rstrip("\n").split("\t")
+        self.raw = line.rstrip("\n")
+        self.idx, self.dir, self.kind, self.hex, self.sent, self.received = int(f[1]), f[2], f[3], f[4], f[5], f[6]
+
+    def agrees(self):
+        return self.kind in ("method", "header") and self.sent == self.received
+
+    def as_dcase(self):
+        if self.kind not in ("method", "header") or UNREP.search(self.sent) or self.sent.startswith("ERR"):
+            return None
+        return DLine("D\t%d\t%s\trabbit\t%s\tOk\t%s\t0\t0\tpeer-%s" % (self.idx, self.kind, self.hex, self.sent, self.dir))
+
+
+def peer_lines(exe, seed, rounds):
+    out = vlib.harness(exe, ["peer", "-seed", str(seed), "-n", str(rounds)], timeout=120)
+    return [PLine(l) for l in out.splitlines() if l.startswith("P\t")]
